@@ -377,9 +377,9 @@ def run(model, tier="quick"):
     effects_check(res, model, "DeribitOptionMarket.sell", REF_SELL,
                   "sell: rejected unless n <= held; cash += sum(price*size)-fee; book := displayed bids - fills; "
                   "position -= n, removed at zero; action record", fx, opaque=OPAQUE)
-    formula_check(res, model, "DeribitOptionMarket.get_market_balance", REF_BALANCE,
+    effects_check(res, model, "DeribitOptionMarket.get_market_balance", REF_BALANCE,
                   "equity = cash + sum(amount * mark) on open bars; on closed bars the last option valuation plus the CURRENT cash",
-                  opaque=["round_decimal", "_is_open"])
+                  [], opaque=["round_decimal", "_is_open"])
     fill_loop_shape(model, res)
     n = isolation_rule(model, res)
     res.floor("fill_loop_call_sites", n, 3)
